@@ -55,3 +55,6 @@ def main():
 
 if __name__ == "__main__":
     main()
+    import os, sys
+    sys.stdout.flush()
+    os._exit(0)
